@@ -282,7 +282,9 @@ pub fn check(scn: &Scenario, stats: &mut Stats) -> Vec<Violation> {
             }
         };
         let r_all: Vec<Item> = reference.iter().map(|j| j.item.clone()).collect();
-        let r_base: Vec<Item> = r_all.iter().filter(|i| i.2 == base_path).cloned().collect();
+        // the base-file selection: the items of the base file and those that belong to no file at
+        // all (the analysis of the whole program failed) - the latter are not "in other files"
+        let r_base: Vec<Item> = r_all.iter().filter(|i| i.2 == base_path || i.2 == "<null>").cloned().collect();
         let others = r_all.len() - r_base.len();
         // titles, levels
         for j in &reference {
@@ -429,7 +431,7 @@ pub fn check(scn: &Scenario, stats: &mut Stats) -> Vec<Violation> {
                             return out;
                         }
                         // excerpts and carets
-                        let refs: Vec<&JsonItem> = reference.iter().filter(|j| all || j.item.2 == base_path).collect();
+                        let refs: Vec<&JsonItem> = reference.iter().filter(|j| all || j.item.2 == base_path || j.item.2 == "<null>").collect();
                         for (p, j) in items.iter().zip(refs) {
                             let rel = j.item.2.strip_prefix("<ROOT>/").unwrap_or(&j.item.2);
                             let Some(ftext) = scn.world.files.get(rel) else { continue };
